@@ -437,6 +437,10 @@ fn svs_cancel_during_next() -> Result<String, String> {
     let canceller = repe::Client::connect(addr).expect("connect canceller");
     let open: OpenResponse = call(&puller, ROUTE_OPEN, &OpenRequest { resource: "slow".to_string() }).expect("open").beve_body().expect("open body");
     let stream_id = open.stream_id;
+    // the canceller's message ids must not coincide with the stream id: burn a few ids on pulls of an unknown stream
+    for _ in 0..3 {
+        let _ = call(&canceller, ROUTE_NEXT, &NextRequest { stream_id: stream_id.wrapping_add(1_000_003) });
+    }
     let g2 = Arc::clone(&gate);
     let helper = std::thread::spawn(move || {
         std::thread::sleep(Duration::from_millis(700));
